@@ -10,17 +10,25 @@ from vcommon import Check, InternalError, ROOT, main_wrapper, run_impl, gz, gnat
 # name, parents, task; compared with the table read off the real classes on every run
 LIB = [("A", [], False), ("A1", [0], False), ("A2", [1], False), ("B", [], False), ("T", [], True),
        ("T1", [4], True), ("LWT", [], False), ("N", [], False), ("N1", [7], False), ("LW", [], False),
-       ("TK", [], True)]
+       ("TK", [], True), ("N2", [7], False)]
 ASSIGN_CLASSES = [0, 1, 2, 3, 4, 5, 6]
 ENUM_SIZES = [3, 2]
-C_N, C_N1, C_LW, C_TK = 7, 8, 9, 10
+C_N, C_N1, C_LW, C_TK, C_N2 = 7, 8, 9, 10, 11
+GRAPH_CLASSES = (C_N, C_N1, C_LW, C_TK, C_N2)
 # required, non generated arguments per graph class; container fields and their shapes
-REQUIRED = {C_N: ["a", "m"], C_N1: ["a", "m", "z", "lr"], C_LW: ["a", "m"], C_TK: ["a", "m"]}
+REQUIRED = {C_N: ["a", "m"], C_N1: ["a", "m", "z", "lr"], C_LW: ["a", "m"], C_TK: ["a", "m"], C_N2: ["a", "m"]}
 SHAPES = {  # field -> shape of a value holding configurations
     C_N: {"c": "obj", "cs": "list", "dc": "dict", "ll": "listlist", "dl": "dictlist"},
     C_N1: {"c": "obj", "cs": "list", "dc": "dict", "ll": "listlist", "dl": "dictlist", "lr": "list"},
     C_LW: {"c": "obj"},
     C_TK: {"c": "obj", "cs": "list", "dc": "dict", "ld": "listdict"},
+    C_N2: {"c": "obj", "cs": "list", "dc": "dict", "ll": "listlist", "dl": "dictlist"},
+}
+# fields that hold TASKS (a task value is only accepted once it went through its own submit: these are
+# assigned in the middle of a history, by "set" operations)
+TASK_SHAPES = {
+    C_TK: {"t": "obj", "ts": "list", "dt": "dict"},
+    C_N2: {"t": "obj", "ts": "list", "dt": "dict", "lt": "listlist"},
 }
 
 
@@ -213,11 +221,11 @@ def gen_conforming(ctx, t, coerce=0.0, key=False):
     raise ValueError(k)
 
 
-def rand_value(ctx, hashable=False):
+def rand_value(ctx, hashable=False, with_objs=True):
     rng = ctx.rng
     kinds = ["none", "int", "bool", "fint", "frac", "str", "path", "enum"]
     if not hashable:
-        kinds += ["list0", "list1", "dict0", "dict1", "obj", "obj", "pathdict"]
+        kinds += ["list0", "list1", "dict0", "dict1", "pathdict"] + (["obj", "obj"] if with_objs else [])
     k = rng.choice(kinds)
     if k == "none":
         return v_none()
@@ -279,13 +287,13 @@ def replace_at(v, path, new):
     return v
 
 
-def gen_offbyone(ctx, t):
+def gen_offbyone(ctx, t, with_objs=True):
     """a conforming value with the sub-value at one random position replaced by a value built
     with another constructor"""
     v = gen_conforming(ctx, t, coerce=0.1)
     path = ctx.rng.choice(positions(v))
     key = bool(path) and path[-1][0] == "k"
-    return replace_at(v, path, rand_value(ctx, hashable=key)), len(path)
+    return replace_at(v, path, rand_value(ctx, hashable=key, with_objs=with_objs)), len(path)
 
 
 # ------------------------------------------------------------------ the property, restated (no model)
@@ -379,6 +387,38 @@ def ast_eq(a, b):
     return json.dumps(norm(a), sort_keys=True) == json.dumps(norm(b), sort_keys=True)
 
 
+def oracle_initial(c, case, a, t, optional, data):
+    """a parameter that was never assigned: H() holds the declared default as a value of the declared type -
+    i.e. after the documented coercions, exactly what assigning the default would store - or None / nothing"""
+    d = case.get("default")
+    expected = coerce_doc(d, t) if d is not None else None
+    if a.get("init_raised"):
+        if d is None or expected is not None:
+            c.violation("C15:construction-raised", "a configuration whose default is of the declared type (up to "
+                        "the documented coercions) cannot be built", data)
+        return
+    s = a["initial"]
+    if s["k"] == "absent":
+        if expected is not None:
+            c.violation("C15:default-not-held", "an unassigned parameter does not hold its declared default", data)
+    elif s["k"] == "none":
+        if not optional:
+            c.violation("C15:default-none-required", "an unassigned required parameter holds None", data)
+        elif expected is not None:
+            c.violation("C15:default-not-held", "an unassigned parameter does not hold its declared default", data)
+    else:
+        if d is None:
+            c.violation("C15:unassigned-holds-value", "a parameter without default holds a value before any assignment", data)
+        if not conforms(s, t):
+            c.violation("C15:default-" + why_not(s, t), "an unassigned parameter holds a default that is not of the "
+                        "declared type (the documented coercion was not applied to the default)", data)
+        elif expected is not None and not ast_eq(s, expected):
+            c.violation("C15:default-not-coerced:" + t["k"], "an unassigned parameter does not hold what assigning "
+                        "its default stores", data)
+    if "initial_read" in a and not ast_eq(a["initial_read"], s):
+        c.violation("C15:readback-differs", "reading the parameter does not give the stored value", data)
+
+
 def oracle_assign(c, case, a):
     if not a["declared"]:
         return
@@ -387,6 +427,9 @@ def oracle_assign(c, case, a):
     optional = annot["k"] == "opt" or case.get("default") is not None
     v = a["input"]
     data = dict(kind="assign", case=case, answer=a)
+    oracle_initial(c, case, a, t, optional, data)
+    if a.get("init_raised"):
+        return
     if a["raised"]:
         if not ast_eq(a["after"], a["before"]):
             c.violation("C15:raise-changed-value", "an assignment raised and the stored value changed", data)
@@ -430,14 +473,19 @@ def node_children(nodes, i, init, deep):
     return out + list(n.get("pre", [])) + list(init)
 
 
-def reachable(nodes, root, init, deep=True):
+def reachable(nodes, root, inits, deep=True, stop=()):
+    """the configurations below root: through parameter values (deep: also inside lists and dicts),
+    pre-tasks and init tasks.  inits: {node: init tasks its submit gave it} (a list = those of root).
+    Nodes in `stop` are neither listed nor entered."""
+    if not isinstance(inits, dict):
+        inits = {root: list(inits)}
     seen, todo = [], [root]
     while todo:
         i = todo.pop()
-        if i in seen:
+        if i in seen or (i in stop and i != root):
             continue
         seen.append(i)
-        todo += node_children(nodes, i, init if i == root else [], deep)
+        todo += node_children(nodes, i, inits.get(i, []), deep)
     return seen
 
 
@@ -464,16 +512,47 @@ def wrap(rng, shape, ids):
     raise ValueError(shape)
 
 
+def pipeline_ops(rng, nodes, classes, nt, init):
+    """a history over nt tasks: the upstream ones go through their own submit first (accepted or rejected -
+    in both cases the object then "has a job" and can be given as a parameter), are then assigned - directly, in
+    a list, in a dict, in a list of lists, or inside an N2 configuration held by the task - to objects that no
+    earlier submit has reached, and the downstream tasks are submitted.  Now and then a task that was never
+    submitted is given (the assignment must be refused)."""
+    n = len(nodes)
+    cur = json.loads(json.dumps(nodes))
+    inits, tried, tainted, ops = {}, [], set(), []
+    for k in range(nt - 1, -1, -1):
+        if tried:
+            holders = [h for h in range(n) if h not in tainted and (h == k or classes[h] == C_N2)]
+            nsets = rng.choice([1, 1, 2, 3]) if k == 0 else rng.choice([0, 1, 1, 2])
+            for _ in range(nsets):
+                h = k if rng.random() < 0.45 else rng.choice(holders)
+                fld, shape = rng.choice(sorted(TASK_SHAPES[classes[h]].items()))
+                ids = [rng.choice(tried) for _ in range(1 if shape == "obj" else rng.choice([1, 1, 2, 3]))]
+                fresh = [j for j in range(nt) if j not in tried and j != k]
+                if fresh and rng.random() < 0.08:
+                    ids[rng.randrange(len(ids))] = rng.choice(fresh)       # never submitted: must be refused
+                value = wrap(rng, shape, ids)
+                ops.append({"op": "set", "node": h, "field": fld, "value": value})
+                if all(j in tried for j in ids):
+                    cur[h]["fields"][fld] = value
+        ops.append({"op": "submit", "root": k, "init": init[k]})
+        inits[k] = init[k]
+        tried.append(k)
+        tainted |= set(reachable(cur, k, inits))
+    return ops
+
+
 def gen_graph(rng, idx):
-    mode = rng.choices(["submit", "resubmit", "validate"], [60, 20, 20])[0]
-    n = rng.randint(2, 9)
-    nroots = 2 if mode == "resubmit" else 1
+    mode = rng.choices(["submit", "resubmit", "validate", "pipeline"], [42, 14, 14, 30])[0]
+    nroots = {"resubmit": 2, "pipeline": rng.choice([2, 2, 3])}.get(mode, 1)
+    n = rng.randint(max(2, nroots), 9)
     classes = []
     for i in range(n):
         if i < nroots and mode != "validate":
             classes.append(C_TK)
         else:
-            classes.append(rng.choices([C_N, C_N1, C_LW], [60, 20, 20])[0])
+            classes.append(rng.choices([C_N, C_N1, C_LW, C_N2], [30, 15, 15, 40] if mode == "pipeline" else [50, 20, 20, 10])[0])
     nodes = []
     for i, cc in enumerate(classes):
         f = {"a": v_int(idx * 16 + i if cc == C_TK else rng.randrange(5)), "m": v_int(rng.randrange(3))}
@@ -485,7 +564,7 @@ def gen_graph(rng, idx):
     # edges: towards higher indices (a DAG) unless validate-only (any direction: cycles)
     for i, cc in enumerate(classes):
         cand = [j for j in range(n) if (j > i or (mode == "validate" and rng.random() < 0.4)) and j >= (0 if mode == "validate" else nroots)]
-        confs = [j for j in cand if classes[j] in (C_N, C_N1)]
+        confs = [j for j in cand if classes[j] in (C_N, C_N1, C_N2)]
         lws = [j for j in cand if classes[j] == C_LW]
         for fld, shape in SHAPES[cc].items():
             if confs and rng.random() < (0.45 if shape != "obj" else 0.35):
@@ -501,7 +580,8 @@ def gen_graph(rng, idx):
     # remove one required value at one node (70 %)
     removed = None
     if rng.random() < 0.7:
-        pool = reachable(nodes, 0, init.get(0, [])) if rng.random() < 0.85 else list(range(n))
+        r0 = rng.randrange(nroots) if mode == "pipeline" else 0
+        pool = reachable(nodes, r0, init.get(r0, [])) if rng.random() < 0.85 else list(range(n))
         if mode == "resubmit" and rng.random() < 0.5:
             both = [i for i in pool if i in reachable(nodes, 1, init.get(1, []))]
             pool = both or pool
@@ -513,24 +593,49 @@ def gen_graph(rng, idx):
         ops = [{"op": "submit", "root": 0, "init": init[0]}]
     elif mode == "resubmit":
         ops = [{"op": "submit", "root": 0, "init": init[0]}, {"op": "submit", "root": 1, "init": init[1]}]
+    elif mode == "pipeline":
+        ops = pipeline_ops(rng, nodes, classes, nroots, init)
     else:
         roots = [rng.randrange(n) for _ in range(rng.choice([1, 2]))]
         ops = [{"op": "validate", "root": r, "init": []} for r in roots]
     return {"mode": mode, "nodes": nodes, "ops": ops, "removed": removed}
 
 
-def oracle_graph(c, case, answers):
+def history(case, answers):
+    """(k, op, answer, nodes, inits) per call, with the objects as they are at the time of the call - as far
+    as the implementation's own answers tell: an assignment that did not raise replaces the field, a submit gives
+    its root its init tasks (before validating)"""
     nodes = case["nodes"]
-    visited_before = set()
+    inits = {}
     for k, (op, a) in enumerate(zip(case["ops"], answers)):
-        reach = reachable(nodes, op["root"], op.get("init", []))
+        if op["op"] == "submit":
+            inits = dict(inits)
+            inits[op["root"]] = list(op.get("init", []))
+        yield k, op, a, nodes, inits
+        if op["op"] == "set" and not a["raised"]:
+            nodes = json.loads(json.dumps(nodes))
+            nodes[op["node"]]["fields"][op["field"]] = op["value"]
+
+
+def oracle_graph(c, case, answers):
+    visited_before = set()
+    tried = set()
+    for k, op, a, nodes, inits in history(case, answers):
+        if op["op"] == "set":
+            continue
+        reach = reachable(nodes, op["root"], inits)
         missing = [i for i in reach if lacks(nodes[i])]
         data = dict(kind="graph", case=case, answers=answers, op=k, missing=missing)
         if a["raised"] and (a["delta"] != 0 or a["registered"]):
             c.violation("C15:registered-despite-raise", "submit raised but a job was registered", data)
         if missing and not a["raised"]:
-            direct = reachable(nodes, op["root"], op.get("init", []), deep=False)
-            if not any(i in direct for i in missing):
+            direct = reachable(nodes, op["root"], inits, deep=False)
+            outside = reachable(nodes, op["root"], inits, stop=tried)    # not on / below a task submitted earlier
+            if not any(i in outside for i in missing):
+                key = "C15:missing-below-submitted-task"
+                what = ("a required value is missing on (or below) a task that went through its own submit before "
+                        "being given as a parameter: the task that holds it is accepted and its job registered")
+            elif not any(i in direct for i in missing):
                 key = "C15:missing-in-container"
                 what = ("a required value is missing on a configuration held in a list or a dict: "
                         "submit accepts the task and registers the job")
@@ -544,6 +649,8 @@ def oracle_graph(c, case, answers):
             c.violation(key, what, data)
         if a["raised"]:
             visited_before |= set(reach)      # nodes an earlier, failed validation may have marked
+        if op["op"] == "submit":
+            tried.add(op["root"])
 
 
 # ------------------------------------------------------------------ Gallina rendering
@@ -609,41 +716,46 @@ def g_classes(table):
 
 def g_assign(case):
     a = case["ans"]
-    after = None if (not a["declared"] or a["after"]["k"] == "absent") else a["after"]
+    present = lambda x: None if (not a["declared"] or x is None or x["k"] == "absent") else x
+    par = lambda x: "(" + g_value(x) + ")"
     ans = (f"{{| aa_declared := {gbool(a['declared'])}; aa_required := {gbool(a.get('required', False))}; "
            f"aa_ty := {gopt(a.get('ty') if a.get('ty', {}).get('k') != 'other' else None, g_type)}; "
-           f"aa_raised := {gbool(a.get('raised', False))}; aa_after := {gopt(after, lambda x: '(' + g_value(x) + ')')} |}}")
+           f"aa_init_raised := {gbool(a.get('init_raised', False))}; aa_initial := {gopt(present(a.get('initial')), par)}; "
+           f"aa_raised := {gbool(a.get('raised', False))}; aa_after := {gopt(present(a.get('after')), par)} |}}")
     v = a["input"] if a["declared"] else case["v"]
-    par = lambda x: "(" + g_value(x) + ")"
     return (f"{{| ac_annot := {g_type(case['annot'], 'A')}; ac_default := {gopt(case.get('default'), par)}; "
             f"ac_old := {gopt(case.get('old'), par)}; ac_sealed := {gbool(case.get('sealed', False))}; "
             f"ac_ctor := {gbool(case['via'] == 'ctor')}; ac_v := {g_value(v)}; ac_ans := {ans} |}}")
 
 
 def g_graph(case, table):
-    names = {c: [a["name"] for a in table[c]["args"]] for c in (C_N, C_N1, C_LW, C_TK)}
-    inits = {op["root"]: op.get("init", []) for op in case["ops"] if op["op"] == "submit"}
+    names = {c: [a["name"] for a in table[c]["args"]] for c in GRAPH_CLASSES}
+
+    def fill(x):
+        """object references get their class; the "has a job" flag is the model's business (stamp)"""
+        if x["k"] == "obj":
+            return dict(x, c=case["nodes"][x["o"]]["c"], sub=False)
+        if x["k"] == "list":
+            return {"k": "list", "l": [fill(y) for y in x["l"]]}
+        if x["k"] == "dict":
+            return {"k": "dict", "ps": [[a, fill(b)] for a, b in x["ps"]]}
+        return x
+
     hs = []
     for i, n in enumerate(case["nodes"]):
-        fs = []
-        for name, v in n["fields"].items():
-            v2 = json.loads(json.dumps(v))
-
-            def fill(x):
-                if x["k"] == "obj":
-                    x["c"] = case["nodes"][x["o"]]["c"]
-                    x["sub"] = False
-                elif x["k"] == "list":
-                    for y in x["l"]:
-                        fill(y)
-                elif x["k"] == "dict":
-                    for _, y in x["ps"]:
-                        fill(y)
-            fill(v2)
-            fs.append(f"({gnat(names[n['c']].index(name))}, {g_value(v2)})")
+        fs = [f"({gnat(names[n['c']].index(name))}, {g_value(fill(v))})" for name, v in n["fields"].items()]
         hs.append(f"{{| n_cls := {gnat(n['c'])}; n_fields := {glist(fs)}; n_pre := {glist(gnat(j) for j in n.get('pre', []))}; "
-                  f"n_init := {glist(gnat(j) for j in inits.get(i, []))}; n_sealed := false |}}")
-    ops = glist(f"({gbool(op['op'] == 'submit')}, {gnat(op['root'])})" for op in case["ops"])
+                  f"n_init := []; n_sealed := false |}}")
+
+    def g_op(op):
+        if op["op"] == "submit":
+            return f"OSubmit {gnat(op['root'])} {glist(gnat(j) for j in op.get('init', []))}"
+        if op["op"] == "validate":
+            return f"OValidate {gnat(op['root'])}"
+        cc = case["nodes"][op["node"]]["c"]
+        return f"OSet {gnat(op['node'])} {gnat(names[cc].index(op['field']))} ({g_value(fill(op['value']))})"
+
+    ops = glist(g_op(op) for op in case["ops"])
     ans = glist(f"({gbool(a['raised'])}, {gnat(a['delta'])})" for a in case["ans"])
     return f"{{| gc_heap := {glist(hs)}; gc_ops := {ops}; gc_ans := {ans} |}}"
 
@@ -664,8 +776,20 @@ def gen_assign(rng):
         annot = {"k": "opt", "t": annot}
     case = dict(stream=stream, annot=annot, default=None, old=None, sealed=False,
                 via="ctor" if rng.random() < 0.2 else "setattr", edit_depth=None)
-    if annot["k"] != "opt" and depth <= 1 and rng.random() < 0.12 and stream != "nested-optional" and not has_obj_type(t):
-        case["default"] = gen_conforming(ctx, t)
+    # a declared default (configuration-free types: a configuration default is cloned, see the notes), at any
+    # depth, written as a value of the type, as a value that needs the documented coercions (x: Param[float] = 1,
+    # Param[List[float]] = [1, 2], Param[Path] = "d"), or off by one constructor (the class must be unusable)
+    if stream != "nested-optional" and not has_obj_type(t) and rng.random() < 0.3:
+        kind = rng.choices(["conforming", "coercible", "offbyone"], [30, 55, 15])[0]
+        if kind == "conforming":
+            d = gen_conforming(ctx, t)
+        elif kind == "coercible":
+            d = gen_conforming(ctx, t, coerce=0.7)
+        else:
+            d, _ = gen_offbyone(ctx, t, with_objs=False)
+        if d["k"] != "none":
+            case["default"] = d
+            case["default_kind"] = kind
     if case["via"] == "setattr" and rng.random() < 0.5 and stream != "nested-optional":
         case["old"] = gen_conforming(ctx, t)
     if stream == "conforming" or stream == "nested-optional":
@@ -729,12 +853,17 @@ def size_of(case):
 def run(c: Check):
     c.rule = ("assignment cases: a random type expression (nesting depth 0-4 over int/float/bool/str/path/enum/"
               "list/dict/configuration classes, Optional at top, a few nested Optional) declared as a real Param on a "
-              "generated class, and a candidate value that conforms, needs the documented coercions, or differs by "
-              "one constructor at a random position; graph cases: a task over 1-8 configurations held directly, in "
+              "generated class, in 30 % of the configuration-free types with a declared default of any depth (written "
+              "as a value of the type, as a value that needs the documented coercions, or off by one constructor), "
+              "and a candidate value that conforms, needs the documented coercions, or differs by one constructor at "
+              "a random position; the value a freshly built configuration holds is observed as well as the "
+              "assignment; graph cases: a task over 1-8 configurations held directly, in "
               "lists, dicts, lists of lists, dicts of lists, lists of dicts, pre-tasks and init tasks, one required "
               "value removed at a random node in 70 %, real submit (or validate() for cyclic graphs, or two submits "
-              "sharing nodes). Non-trivial = assignment with a container or configuration type; graph with >= 3 "
-              "reachable nodes; distinct by canonical case")
+              "sharing nodes, or a pipeline history: 2-3 tasks, the upstream ones go through their own submit - "
+              "accepted or rejected - and are then assigned, directly / in a list / dict / list of lists / inside a "
+              "held configuration, to the downstream ones, which are submitted in turn). Non-trivial = assignment "
+              "with a container or configuration type; graph with >= 3 reachable nodes; distinct by canonical case")
     c.build()
     c.props()
     n_assign, n_graph = (3000, 1200) if c.quick else (60000, 24000)
@@ -773,7 +902,16 @@ def run(c: Check):
             c.count("assign:edit_depth=%d" % case["edit_depth"])
         if case.get("stream") == "offbyone" and a["declared"]:
             c.count("assign:offbyone=" + ("raised" if a["raised"] else "stored"))
-        c.count("assign:outcome=" + ("undeclarable" if not a["declared"] else ("raised:" + a.get("exc", "?") if a["raised"] else "stored")))
+        c.count("assign:outcome=" + ("undeclarable" if not a["declared"] else "construction-raised" if a.get("init_raised")
+                                     else ("raised:" + a.get("exc", "?") if a["raised"] else "stored")))
+        if case.get("default") is not None:
+            t0_ = strip_opt(case["annot"])
+            exp = coerce_doc(case["default"], t0_)
+            c.count("assign:default=" + case.get("default_kind", "golden") + ":" +
+                    ("undeclarable" if not a["declared"] else
+                     "held-as-written" if exp is not None and ast_eq(exp, case["default"]) else
+                     "held-coerced" if exp is not None else "held-other"))
+            c.count("assign:default_depth=%d" % type_depth(t0_))
         if type_depth(strip_opt(case["annot"])) >= 1 or strip_opt(case["annot"])["k"] == "obj":
             c.nontrivial.add(json.dumps([case["annot"], case["v"], case.get("old"), case.get("sealed")], sort_keys=True))
     for case, a in zip(graphs, rg):
@@ -784,11 +922,18 @@ def run(c: Check):
         c.count("graph:removed=" + ("none" if not case.get("removed") else str(case["removed"][1])))
         for op, x in zip(case["ops"], a):
             c.count("graph:" + op["op"] + ("=raised:" + x.get("exc", "?") if x["raised"] else "=accepted"))
-        r = reachable(case["nodes"], case["ops"][0]["root"], case["ops"][0].get("init", []))
-        miss = [i for i in range(len(case["nodes"])) if lacks(case["nodes"][i])]
-        direct = reachable(case["nodes"], case["ops"][0]["root"], case["ops"][0].get("init", []), deep=False)
+        # the last submit / validate of the history, on the objects as they are then
+        k, op, _, nodes, inits = [h for h in history(case, a) if h[1]["op"] != "set"][-1]
+        r = reachable(nodes, op["root"], inits)
+        miss = [i for i in range(len(nodes)) if lacks(nodes[i])]
+        direct = reachable(nodes, op["root"], inits, deep=False)
+        tried = {o["root"] for o in case["ops"][:k] if o["op"] == "submit"}
+        outside = reachable(nodes, op["root"], inits, stop=tried)
         c.count("graph:missing=" + ("nowhere" if not miss else "unreachable" if not any(i in r for i in miss)
+                                    else "only-below-a-task-submitted-before" if not any(i in outside for i in miss)
                                     else "held-directly" if any(i in direct for i in miss) else "only-through-list-or-dict"))
+        if case.get("mode") == "pipeline":
+            c.count("graph:pipeline:tasks-held=%d" % len([i for i in r if i in tried]))
         if len(r) >= 3:
             c.nontrivial.add(json.dumps([case["nodes"], case["ops"]], sort_keys=True))
     # the oracle sees the cases smallest first, so that the replay kept for a key is the smallest failing input
@@ -813,6 +958,10 @@ def run(c: Check):
         "__validate__ hooks and Argument.checker are outside the model (the generated classes have none)",
         "what follows validation inside submit (seal, identifier, dependencies) is assumed not to raise for the "
         "acyclic graphs generated; cyclic graphs are only given to validate() because submit raises RecursionError on them",
+        "sealing by an accepted submit is not part of the session model (C14's subject): the generated histories never "
+        "assign to an object that an earlier submit has reached, and submit each task once",
+        "declared defaults are generated for configuration-free types only (a configuration default is cloned by "
+        "TypeConfig.__init__, a submitted task default becomes an unsubmitted one)",
     ]
 
 
